@@ -29,11 +29,19 @@ def analyzer_roots(F):
             any(b.self_adt.endswith(a) for a in ADTS)]
 
 
+def analyzer_deps():
+    """The analyzer dereferences only Program.location (it never starts loops, calls subroutines, breaks or reads
+    DATA), so for its roots INV-LOC reduces to the obligations about `location` and about how locations are built."""
+    deps = dict(vetted.INV_DEPENDS)
+    deps["INV-LOC"] = ("C11", ("C11:KILL:Program.location", "C11:ESTABLISH:", "C11:WRITER:", "C11:CALLER:ProgramLines"))
+    return deps
+
+
 def run(ck, F, E):
     roots = analyzer_roots(F)
     ck.floor("C05.analyzer API roots", len(roots), 10)
     common.map_rule(ck, F, E, "C05")
-    deps = dict(vetted.INV_DEPENDS)
+    deps = analyzer_deps()
     G, seen, T = panics.panic_freedom(ck, F, E, "C05", roots, vetted.ROWS, deps, floor_sites=40)
     panics.recursion_rule(ck, F, G, seen, "C05")
     common.successor_rule(ck, F, "C05")
